@@ -49,6 +49,8 @@ func Apply(in Instr, xs []*T) (*T, error) {
 			return nil, err
 		}
 		return Full(in.Shape, in.F), nil
+	case "eye": // the identity matrix of order Dim
+		return Eye(in.Dim)
 	case "slice":
 		return xs[0].Slice(in.Index)
 	case "patch":
@@ -186,7 +188,7 @@ func (p Prog) Eval() ([]*T, error) {
 func (p Prog) TrackedSet() []bool {
 	tr := make([]bool, len(p))
 	for i, in := range p {
-		if in.Op == "leaf" || in.Op == "full" {
+		if in.Op == "leaf" || in.Op == "full" || in.Op == "eye" {
 			tr[i] = in.Tracked
 			continue
 		}
@@ -236,7 +238,7 @@ func (p Prog) GradS(vals []*T, root int, seed *T, rule BroadcastRule) (g, scale 
 	g[root] = seed.Clone()
 	scale[root] = seed.Map(math.Abs)
 	for i := root; i >= 0; i-- {
-		if g[i] == nil || p[i].Op == "leaf" || p[i].Op == "full" {
+		if g[i] == nil || p[i].Op == "leaf" || p[i].Op == "full" || p[i].Op == "eye" {
 			continue
 		}
 		in := p[i]
